@@ -23,6 +23,10 @@ Inductive tsstmt :=
 Record tsfacts := mkTs {
   ts_global_static : bool;        (* `global` is a static data member                           *)
   ts_global_atomic : bool;        (* of type std::atomic<size_t>                                *)
+  ts_global_const_init : bool;    (* its definition is constant-initialised: std::atomic<size_t> (constexpr constructor)
+                                     from a literal, and the translation unit needs no global constructor
+                                     (clang -Wglobal-constructors is silent): the counter is valid before any
+                                     dynamic initialisation, whatever the link order                            *)
   ts_value_atomic : bool;         (* `value` is a std::atomic<size_t>                           *)
   ts_value_init_next : bool;      (* default member initialiser value{nextValue()}              *)
   ts_default_ctor_defaulted : bool;
@@ -99,7 +103,7 @@ Definition compile_of (f : tsfacts) (i : instr) : option (list micro) :=
   end.
 
 Definition ts_wf (f : tsfacts) : bool :=
-  ts_global_static f && ts_global_atomic f && ts_value_atomic f && rmw_is_fetch_add (ts_next f)
+  ts_global_static f && ts_global_atomic f && ts_global_const_init f && ts_value_atomic f && rmw_is_fetch_add (ts_next f)
   && ts_conv_returns_value f.
 
 (* ------------------------------------------------------------------ Observable / Observer *)
